@@ -5,6 +5,7 @@ import (
 	"encoding/json"
 	"errors"
 	"fmt"
+	"io/ioutil"
 	"math"
 	"reflect"
 	"strconv"
@@ -257,6 +258,61 @@ func (c *c02) neighbours(f seqx.Field) {
 	}
 }
 
+// afterUnwritten: the field is first given to events that are never written - a disabled (nil) event, an enabled
+// event that is discarded, a context of the Nop logger - and then the same field and two fixed containers are
+// logged: pooled arrays and dicts handed back on those paths must come out of the pool empty.
+func (c *c02) afterUnwritten(f seqx.Field) {
+	c.idx++
+	if c.idx%int64(c.n) != int64(c.shard) {
+		return
+	}
+	fixedA := seqx.Field{M: "Array", Key: "fa", Form: "arr", Sub: []seqx.Field{{M: "Int", Val: 7}}}
+	fixedD := seqx.Field{M: "Dict", Key: "fd", Sub: []seqx.Field{{M: "Str", Key: "in", Val: "v"}}}
+	for variant := 0; variant < 3; variant++ {
+		if variant == 2 && !seqx.HasContextForm(f) {
+			continue
+		}
+		desc := fmt.Sprintf("%s after the same field was given to %s", f, []string{"a disabled event", "an event that was discarded", "a context of the Nop logger"}[variant])
+		pre := func() (pn string) {
+			defer func() {
+				if x := recover(); x != nil {
+					pn = fmt.Sprint(x)
+				}
+			}()
+			switch variant {
+			case 0:
+				seqx.ApplyEvent((*zerolog.Event)(nil), f)
+			case 1:
+				lg := zerolog.New(ioutil.Discard)
+				seqx.ApplyEvent(lg.Log(), f).Discard()
+			case 2:
+				seqx.ApplyContext(zerolog.Nop().With(), f)
+			}
+			return ""
+		}
+		p := seqx.Program{Entry: entryLog, Fields: []seqx.Field{fixedA, f, fixedD}, Final: send}
+		if pn := pre(); pn != "" {
+			c.r.Violation("", "unwritten/prelude/"+f.M, fmt.Sprintf("%s: the unwritten call panicked: %s", desc, pn), p.String())
+			continue
+		}
+		out := seqx.Run(p)
+		c.r.Transitions++
+		if out.Panic != "" || len(out.Lines) != 1 {
+			c.r.Violation("", "unwritten/run/"+f.M, fmt.Sprintf("%s: panic %q, %d writes", desc, out.Panic, len(out.Lines)), p.String())
+			continue
+		}
+		c.r.Eval("uw|"+string(out.Lines[0]), true)
+		root, err := jsonstrict.ParseLine(out.Lines[0])
+		if err != nil {
+			c.r.Violation("", "unwritten/invalid/"+f.M, fmt.Sprintf("%s: output %q is not valid JSON: %v", desc, out.Lines[0], err), p.String())
+			continue
+		}
+		if err := seqx.MatchFields(root, seqx.FieldsExp([]seqx.Field{fixedA, f, fixedD})); err != nil {
+			c.r.Violation("", "unwritten/value/"+f.M, fmt.Sprintf("%s: %v; output %q", desc, err, out.Lines[0]), p.String())
+		}
+	}
+}
+
 func (c *c02) value(f seqx.Field, settings []int, eps []entryPoint) {
 	c.idx++
 	if c.idx%int64(c.n) != int64(c.shard) {
@@ -446,6 +502,9 @@ func runC02() {
 			for _, v := range vals {
 				c.neighbours(seqx.Field{M: m, Key: "key", Val: v})
 			}
+		}
+		for _, f := range alpha.Full {
+			c.afterUnwritten(f)
 		}
 		// pointer-typed values in Fields (one arm per scalar type in the encoder): *T must render exactly as T does
 		for _, m := range []string{"Str", "Bool", "Int", "Int8", "Int16", "Int32", "Int64", "Uint", "Uint8", "Uint16", "Uint32", "Uint64", "Float32", "Float64", "Time", "Dur"} {
